@@ -491,14 +491,8 @@ Fixpoint crun (ch sh : list N) (s : cstate) (ls : list clabel) : option cstate :
   end.
 
 (* ------------------------------------------------------------------------------------ *)
-(* trace replay for the correspondence run: the harness drives real sockets one event at a
-   time and lets the server settle in between; [settle] runs every enabled server thread
-   to quiescence with a fixed scheduler (acceptor first, then handlers by index). *)
-
-Inductive tev :=
-| EvConnect                     (* a new connection (index = number of connections so far) *)
-| EvWrite (c : nat) (bs : list N)
-| EvClose (c : nat).
+(* fixed scheduler used by the trace replay of Model/TunnelReplay.v: acceptor first, then
+   handlers by index *)
 
 Fixpoint first_some {A} (f : nat -> option A) (cs : list nat) : option A :=
   match cs with
@@ -525,39 +519,7 @@ Definition sched_once (ch sh : list N) (s : sstate) : option sstate :=
     end
   end.
 
-Fixpoint settle (fuel : nat) (ch sh : list N) (s : sstate) : sstate :=
-  match fuel with
-  | O => s
-  | S f => match sched_once ch sh s with Some s' => settle f ch sh s' | None => s end
-  end.
-
 Definition settle_fuel (s : sstate) : nat := 16 + 8 * length (s_conns s).
-
-Definition apply_ev (ch sh : list N) (s : sstate) (e : tev) : sstate :=
-  let s1 :=
-    match e with
-    | EvConnect => match sstep ch sh s (LConnect []) with Some s' => s' | None => s end
-    | EvWrite c bs =>
-      match nth_error (s_conns s) c with
-      | Some k =>
-        let s0 := with_conns s (upd c (fun k => mkConn (PWrite bs :: k_script k) (k_rx k) (k_eof k) (k_pc k)
-                                       (k_first k) (k_tx k) (k_closed k) (k_won k) (k_pump k)) (s_conns s)) in
-        match sstep ch sh s0 (LPeer c) with Some s' => s' | None => s end
-      | None => s
-      end
-    | EvClose c =>
-      match nth_error (s_conns s) c with
-      | Some k =>
-        let s0 := with_conns s (upd c (fun k => mkConn (PClose :: k_script k) (k_rx k) (k_eof k) (k_pc k)
-                                       (k_first k) (k_tx k) (k_closed k) (k_won k) (k_pump k)) (s_conns s)) in
-        match sstep ch sh s0 (LPeer c) with Some s' => s' | None => s end
-      | None => s
-      end
-    end in
-  settle (settle_fuel s1) ch sh s1.
-
-Definition replay (uid : list N) (port : Z) (evs : list tev) : sstate :=
-  fold_left (apply_ev (client_hello uid port) (server_hello uid port)) evs s_init.
 
 (* what the far end of a connection can observe *)
 Inductive cobs := ObsRefused | ObsOpenSilent | ObsClosedSilent | ObsReplied (bs : list N) (closed : bool).
